@@ -17,6 +17,7 @@ package server
 import (
 	"bytes"
 	"crypto/md5"
+	"encoding/hex"
 	"fmt"
 	"math"
 	"net/http"
@@ -852,9 +853,25 @@ func (u *UserManager) CheckUser(user string) bool {
 	return false
 }
 
+// isStoredHashPassword reports whether a configured password is in stored-hash form:
+// '*' followed by the 40 hex digits of SHA1(SHA1(password)), as in mysql.user.
+// Such an entry is only meaningful to CheckHashPassword. It must not be compared as
+// clear text: the scramble of the hash string itself would pass, so whoever can read
+// the stored hash could log in without knowing the password.
+func isStoredHashPassword(password string) bool {
+	if strings.HasPrefix(password, "*") && len(password) == 41 {
+		_, err := hex.DecodeString(password[1:])
+		return err == nil
+	}
+	return false
+}
+
 // CheckPassword check if right password with specific user
 func (u *UserManager) CheckPassword(user string, salt, auth []byte) (bool, string) {
 	for _, password := range u.users[user] {
+		if isStoredHashPassword(password) {
+			continue
+		}
 		checkAuth := mysql.CalcPassword(salt, []byte(password))
 		if bytes.Equal(auth, checkAuth) {
 			return true, password
@@ -878,6 +895,9 @@ func (u *UserManager) CheckHashPassword(user string, salt, auth []byte) (bool, s
 // CheckPassword check if right password with specific user
 func (u *UserManager) CheckSha2Password(user string, salt, auth []byte) (bool, string) {
 	for _, password := range u.users[user] {
+		if isStoredHashPassword(password) {
+			continue
+		}
 		checkAuth := mysql.CalcCachingSha2Password(salt, password)
 		if bytes.Equal(auth, checkAuth) {
 			return true, password
